@@ -189,6 +189,33 @@ def _same_buffer(eng, row, a, b):
     return bool(ra & rb)
 
 
+def _strip_d(x):
+    while x[0] in ("ptr", "obj") and x[1][0] == "D" and (x[0] == "obj" or not x[2]):
+        x = x[1][1]
+    return x
+
+
+def _buffer_value_at(eng, row, idx, bufarg):
+    """the VALUE (version) of the buffer a call at event index idx operates on: for a pointer to a symbolic cell, the last
+    value written to that cell before the call (a consume / advance writes a havoc value), else the original content"""
+    b = bufarg
+    if b[0] == "ptr" and b[1][0] == "S":
+        val = None
+        for e in row.events[:idx]:
+            if e[0] == "write" and e[1] == b[1] and tuple(e[2]) == tuple(b[2]):
+                val = e[3]
+        if val is None:
+            val = ("obj", b[1])
+            for el in b[2]:
+                val = _sym.proj(val, el)
+        return _strip_d(val)
+    return _strip_d(_T.resolve_locals(eng, row.store, b))
+
+
+def _len_of_value(eng, row, operand, bufval):
+    return _strip_d(_T.resolve_locals(eng, row.store, operand)) == bufval
+
+
 def amount_of(e, kind):
     """(buffer arg, amount term) of a slicing / consuming call event"""
     args = e[2]
@@ -221,6 +248,7 @@ def verify_len_guard(eng, rows, site_line, callee_suffix, kind):
                 return False, n, "cannot identify the amount"
             idx = row.events.index(e)
             amt_r = _T.resolve_locals(eng, row.store, amt)
+            bufval = _buffer_value_at(eng, row, idx, buf)
             # (a) earlier successful get(..amt) on the same buffer, with the success on the path condition
             ok = False
             for g in row.events[:idx]:
@@ -228,7 +256,7 @@ def verify_len_guard(eng, rows, site_line, callee_suffix, kind):
                     gb, ga = amount_of(("call", g[1], g[2]), "index")
                     is_len_of_slice = ((amt_r[0] == "call" and _sym.strip_all_generics(amt_r[1]).endswith("::len")) or (amt_r[0] == "un" and amt_r[1] == "len")) and any(
                         s[0] == "call" and _sym.strip_all_generics(s[1]).split("::")[-1] == "get" for s in _T.subterms(amt_r))
-                    if ga is not None and (_T.resolve_locals(eng, row.store, ga) == amt_r or is_len_of_slice) and _same_buffer(eng, row, gb, buf):
+                    if ga is not None and (_T.resolve_locals(eng, row.store, ga) == amt_r or is_len_of_slice) and _buffer_value_at(eng, row, row.events.index(g), gb) == bufval:
                         gterm = [s for c in row.cond for s in _T.subterms(c[1]) if s[0] == "call" and s[1] == g[1] and s[2] == g[2]]
                         succ = any(c[0] == "variant" and c[3] and c[2] in ("Some", "Ok") and any(
                             s[0] == "call" and s[1] == g[1] for s in _T.subterms(c[1])) for c in row.cond)
@@ -240,8 +268,8 @@ def verify_len_guard(eng, rows, site_line, callee_suffix, kind):
             lens = []
             for c in row.cond:
                 for s in _T.subterms(c[1]):
-                    if (s[0] == "call" and _sym.strip_all_generics(s[1]).endswith("::len") and s[2] and _same_buffer(eng, row, s[2][0], buf)) or (
-                            s[0] == "un" and s[1] == "len" and _same_buffer(eng, row, s[2], buf)):
+                    if (s[0] == "call" and _sym.strip_all_generics(s[1]).endswith("::len") and s[2] and _len_of_value(eng, row, s[2][0], bufval)) or (
+                            s[0] == "un" and s[1] == "len" and _len_of_value(eng, row, s[2], bufval)):
                         if s not in lens:
                             lens.append(s)
             if not lens:
@@ -289,10 +317,19 @@ def verify_bounds_assert(eng, rows, site_line):
             if not lens:
                 return False, n, "bounds check without a length operand"
 
+            # only lengths of the SAME buffer value count: after `consume` / `advance` the buffer is a different (havoc)
+            # value and an earlier length check says nothing about it (seed R2-C19-2)
+            def root(x):
+                x = _T.resolve_locals(eng, row.store, x)
+                while x[0] in ("ptr", "obj") and x[1][0] == "D" and (x[0] == "obj" or not x[2]):
+                    x = x[1][1]
+                return x
+            want_root = root(lens[0][2])
+
             def canon(t):
-                if t[0] == "call" and _sym.strip_all_generics(t[1]).endswith("::len"):
+                if t[0] == "call" and _sym.strip_all_generics(t[1]).endswith("::len") and t[2] and root(t[2][0]) == want_root:
                     return _T.R("len")
-                if t[0] == "un" and t[1] == "len":
+                if t[0] == "un" and t[1] == "len" and root(t[2]) == want_root:
                     return _T.R("len")
                 return None
             cc = _T.rewrite(cond, canon)
